@@ -99,6 +99,67 @@ def sel_arg(log, nidx, what, p, style):
     return stream(log, nidx, what, p[1], "callable" if style == "const" else style)
 
 
+
+def _construct(cfg, mods, env, log, nodes, edges):
+    for c in cfg["order"]:
+        i = int(c[1:])
+        if c[0] == "N":
+            n = cfg["nodes"][i]
+            name = "n%d" % i
+            st = n.get("style", "const")
+            if n["kind"] == "source":
+                log.src_index[name] = i
+                obj = mods["nodes.source"].Source(env, name, inter_arrival_time=stream(log, i, 0, n["delays"], st),
+                                                  blocking=n["blocking"], out_edge_selection=sel_arg(log, i, 2, n["outsel"], st),
+                                                  flow_item_type="pallet" if n.get("pallet") else "item")
+            elif n["kind"] == "machine":
+                obj = mods["nodes.machine"].Machine(env, name, node_setup_time=n["setup"], work_capacity=n["wcap"],
+                                                    processing_delay=stream(log, i, 0, n["delays"], st), blocking=n["blocking"],
+                                                    in_edge_selection=sel_arg(log, i, 1, n["insel"], st),
+                                                    out_edge_selection=sel_arg(log, i, 2, n["outsel"], st))
+            elif n["kind"] == "splitter":
+                obj = mods["nodes.splitter"].Splitter(env, name, node_setup_time=n["setup"], processing_delay=stream(log, i, 0, n["delays"], st),
+                                                      blocking=n["blocking"], in_edge_selection=sel_arg(log, i, 1, n["insel"], st),
+                                                      out_edge_selection=sel_arg(log, i, 2, n["outsel"], st))
+            elif n["kind"] == "combiner":
+                obj = mods["nodes.combiner"].Combiner(env, name, node_setup_time=n["setup"], target_quantity_of_each_item=list(n["recipe"]),
+                                                      processing_delay=stream(log, i, 0, n["delays"], st), blocking=n["blocking"],
+                                                      out_edge_selection=sel_arg(log, i, 2, n["outsel"], st))
+            else:
+                obj = mods["nodes.sink"].Sink(env, name)
+            log.node_index[id(obj)] = i
+            if n["kind"] == "source":
+                obj.node_setup_time = n["setup"]
+            obj.stats = StatsDict(obj.stats, log, i)
+            nodes[i] = obj
+        else:
+            e = cfg["edges"][i]
+            name = "e%d" % i
+            if e["kind"] == "buffer":
+                obj = mods["edges.buffer"].Buffer(env, name, capacity=e["cap"], delay=stream(log, 1000 + i, 0, e["delays"], e.get("style", "const")),
+                                                  mode=e["mode"])
+            else:
+                obj = mods["edges.fleet"].Fleet(env, name, capacity=e["cap"], delay=e["fdelay"], transit_delay=e["transit"])
+            edges[i] = obj
+            st = obj.inbuiltstore
+            oput, oget = st.put, st.get
+
+            def put(ev, item, _o=oput, _i=i):
+                r = _o(ev, item)
+                it = item[0] if isinstance(item, tuple) else item
+                log.lines.append("P %d %d %d" % (env.now, _i, getattr(it, "_vidx", -1)))
+                return r
+
+            def get(ev, _o=oget, _i=i):
+                it = _o(ev)
+                log.lines.append("T %d %d %d" % (env.now, _i, getattr(it, "_vidx", -1)))
+                return it
+            st.put, st.get = put, get
+    for (ei, s, d) in cfg["connects"]:
+        edges[ei].connect(nodes[s], nodes[d])
+
+
+
 def run_impl(cfg):
     """returns the canonical output lines of the implementation"""
     mods = {k: common.load(k) for k in ("nodes.source", "nodes.machine", "nodes.sink", "nodes.splitter", "nodes.combiner", "edges.buffer", "edges.fleet",
@@ -132,62 +193,10 @@ def run_impl(cfg):
     crash = None
     try:
         nodes, edges = {}, {}
-        for c in cfg["order"]:
-            i = int(c[1:])
-            if c[0] == "N":
-                n = cfg["nodes"][i]
-                name = "n%d" % i
-                st = n.get("style", "const")
-                if n["kind"] == "source":
-                    log.src_index[name] = i
-                    obj = mods["nodes.source"].Source(env, name, inter_arrival_time=stream(log, i, 0, n["delays"], st),
-                                                      blocking=n["blocking"], out_edge_selection=sel_arg(log, i, 2, n["outsel"], st),
-                                                      flow_item_type="pallet" if n.get("pallet") else "item")
-                elif n["kind"] == "machine":
-                    obj = mods["nodes.machine"].Machine(env, name, node_setup_time=n["setup"], work_capacity=n["wcap"],
-                                                        processing_delay=stream(log, i, 0, n["delays"], st), blocking=n["blocking"],
-                                                        in_edge_selection=sel_arg(log, i, 1, n["insel"], st),
-                                                        out_edge_selection=sel_arg(log, i, 2, n["outsel"], st))
-                elif n["kind"] == "splitter":
-                    obj = mods["nodes.splitter"].Splitter(env, name, node_setup_time=n["setup"], processing_delay=stream(log, i, 0, n["delays"], st),
-                                                          blocking=n["blocking"], in_edge_selection=sel_arg(log, i, 1, n["insel"], st),
-                                                          out_edge_selection=sel_arg(log, i, 2, n["outsel"], st))
-                elif n["kind"] == "combiner":
-                    obj = mods["nodes.combiner"].Combiner(env, name, node_setup_time=n["setup"], target_quantity_of_each_item=list(n["recipe"]),
-                                                          processing_delay=stream(log, i, 0, n["delays"], st), blocking=n["blocking"],
-                                                          out_edge_selection=sel_arg(log, i, 2, n["outsel"], st))
-                else:
-                    obj = mods["nodes.sink"].Sink(env, name)
-                log.node_index[id(obj)] = i
-                if n["kind"] == "source":
-                    obj.node_setup_time = n["setup"]
-                obj.stats = StatsDict(obj.stats, log, i)
-                nodes[i] = obj
-            else:
-                e = cfg["edges"][i]
-                name = "e%d" % i
-                if e["kind"] == "buffer":
-                    obj = mods["edges.buffer"].Buffer(env, name, capacity=e["cap"], delay=stream(log, 1000 + i, 0, e["delays"], e.get("style", "const")),
-                                                      mode=e["mode"])
-                else:
-                    obj = mods["edges.fleet"].Fleet(env, name, capacity=e["cap"], delay=e["fdelay"], transit_delay=e["transit"])
-                edges[i] = obj
-                st = obj.inbuiltstore
-                oput, oget = st.put, st.get
-
-                def put(ev, item, _o=oput, _i=i):
-                    r = _o(ev, item)
-                    it = item[0] if isinstance(item, tuple) else item
-                    log.lines.append("P %d %d %d" % (env.now, _i, getattr(it, "_vidx", -1)))
-                    return r
-
-                def get(ev, _o=oget, _i=i):
-                    it = _o(ev)
-                    log.lines.append("T %d %d %d" % (env.now, _i, getattr(it, "_vidx", -1)))
-                    return it
-                st.put, st.get = put, get
-        for (ei, s, d) in cfg["connects"]:
-            edges[ei].connect(nodes[s], nodes[d])
+        try:
+            _construct(cfg, mods, env, log, nodes, edges)
+        except Exception as ex:  # noqa  -- a constructor / connect rejected the configuration
+            return ["CRASH " + type(ex).__name__, "AT-CONSTRUCTION"]
         try:
             steps, budget = 0, cfg.get("maxsteps", 6000)
             while env.peek() < cfg["T"] and steps < budget:
@@ -248,9 +257,10 @@ def run_impl(cfg):
                 ed.update_final_buffer_avg_content(cfg["T"])
             else:
                 ed.update_final_fleet_avg_content(cfg["T"])
-            out.append("EDGE %d wsum=%s transit=%s ready=%s" % (
+            out.append("EDGE %d wsum=%s transit=%s ready=%s res=%d,%d,%d,%d" % (
                 i, num(st._weighted_sum), ",".join(str(getattr(x[0] if isinstance(x, tuple) else x, "_vidx", -1)) for x in st.items),
-                ",".join(str(getattr(x, "_vidx", -1)) for x in st.ready_items)))
+                ",".join(str(getattr(x, "_vidx", -1)) for x in st.ready_items),
+                len(st.reserve_put_queue), len(st.reservations_put), len(st.reserve_get_queue), len(st.reservations_get)))
     finally:
         srcmod.Item, srcmod.Pallet = BaseItem, BasePallet
     return out
@@ -493,3 +503,45 @@ def monitor_text(cfg, lines):
 def run_monitor(cfgs, outputs):
     res = common.run_driver("".join(monitor_text(c, o) for c, o in zip(cfgs, outputs)))
     return [r[0] if r else "NONE" for r in res]
+
+
+def gen_invalid(rng):
+    """a valid configuration with exactly one invalid aspect injected"""
+    for _ in range(50):
+        cfg = gen_config(rng, with_fleet=True) if rng.random() < 0.7 else gen_config_sc(rng)
+        kind = rng.choice(["bad_const_index", "bad_policy", "negative_delay", "cap_zero", "bad_mode", "nonblocking_zero_interarrival"])
+        cfg["valid"] = False
+        cfg["expect_reject"] = kind
+        cand = [i for i, n in enumerate(cfg["nodes"]) if n["kind"] in ("source", "machine")]
+        if kind == "bad_const_index":
+            i = rng.choice(cand)
+            n = cfg["nodes"][i]
+            cfg["fault_node"] = i
+            n["outsel"] = ("C", rng.choice([len(n["outs"]), len(n["outs"]) + 2, -1]))
+        elif kind == "bad_policy":
+            cfg["fault_node"] = rng.choice(cand)
+            cfg["nodes"][cfg["fault_node"]]["outsel"] = ("BAD",)
+        elif kind == "negative_delay":
+            cfg["fault_node"] = rng.choice(cand)
+            n = cfg["nodes"][cfg["fault_node"]]
+            n["delays"] = [-1] if n["kind"] == "machine" or n["blocking"] else [1, -2]
+            if n["style"] == "const":
+                n["delays"] = [-1]
+            if n["kind"] == "source" and not n["blocking"] and n["delays"][0] == 0:
+                continue
+        elif kind == "cap_zero":
+            cfg["edges"][rng.randrange(len(cfg["edges"]))]["cap"] = rng.choice([0, -1])
+            cfg["model_skip"] = True
+        elif kind == "bad_mode":
+            b = [e for e in cfg["edges"] if e["kind"] == "buffer"]
+            if not b:
+                continue
+            rng.choice(b)["mode"] = "FILO"
+            cfg["model_skip"] = True
+        else:
+            srcs = [n for n in cfg["nodes"] if n["kind"] == "source"]
+            n = rng.choice(srcs)
+            n["blocking"], n["style"], n["delays"] = False, "const", [0]
+            cfg["model_skip"] = True
+        return cfg
+    return cfg
